@@ -13,6 +13,8 @@ Families
   drain      SSHWriter.drain() against a peer that is not reading
   writers    several tasks writing and draining on one channel: drain()
              never returns while writing is paused
+  duplex     input larger than the peer's window, EOF already requested,
+             while the command's output is arriving
 """
 
 import asyncio
@@ -2768,10 +2770,15 @@ def writers_strategy(tier: str):
         high = draw(pick([64, 1000, 65536]))
         win = draw(pick([64, 4096, 32768]))
         pkt = draw(pick([64, 32768]))
-        big = st.one_of(pick([high + 1, 2 * high, 4 * high, high + win]),
-                        st.integers(1, high))
+        over = pick([high + 1, 2 * high, 4 * high, high + win])
+        big = st.one_of(over, st.integers(1, high))
         nw = draw(pick([2, 2, 3]))
-        plans = [draw(st.lists(big, min_size=1, max_size=4))
+        # (which of several blocked drain() calls wakes first is not
+        # specified - asyncssh keeps the waiters in a set -, so every writer
+        # starts with two chunks above the high-water mark: whichever wakes
+        # first pauses writing again before the others run)
+        plans = [[draw(over), draw(over)] +
+                 draw(st.lists(big, min_size=0, max_size=2))
                  for _ in range(nw)]
         cap = 600000
 
@@ -2785,6 +2792,126 @@ def writers_strategy(tier: str):
                 'chunks': draw(st.one_of(
                     st.just([]), st.just([4096]),
                     st.lists(st.integers(100, 4000), min_size=1,
+                             max_size=4)))}
+
+    return build()
+
+
+# ---------------------------------------------------------------------------
+# family: duplex (output arrives while input is still being sent)
+# ---------------------------------------------------------------------------
+
+NT_DUPLEX = {'input>window'}
+
+
+def run_duplex(case) -> CaseResult:
+    """The command echoes its stdin to stdout as it reads it (banner and
+    trailer on stderr) and exits 0 at EOF.  The client sends more input than
+    the server's receive window and has already called write_eof() - through
+    run(input=), communicate() or the stream API - while the echo of the
+    first part arrives.  Whenever the exit status is reported the complete
+    echo comes with it."""
+
+    enc = case['enc']
+    labels = set()
+    chunker = chunker_of(case)
+    data = ''.join('%x' % (i % 16) if i % 37 else '\n'
+                   for i in range(case['size']))
+    want = conv(enc, data)
+
+    async def body(stdin, stdout, stderr, chan):
+        stderr.write(conv(enc, 'start\n'))
+
+        while True:
+            chunk = await stdin.read(case['srv_read'])
+            if not chunk:
+                break
+            stdout.write(chunk)
+            if case['srv_drain']:
+                await stdout.drain()
+
+        stderr.write(conv(enc, 'done\n'))
+        chan.exit(0)
+
+    pair = make_pair(case, body, case['sapi'], encoding=enc,
+                     window=case['swin'], max_pktsize=case['spkt'])
+    h = pair.h
+
+    try:
+        pair.handshake(chunker)
+        kw = dict(encoding=enc, window=case['win'], max_pktsize=case['pkt'])
+        mode = case['client']
+
+        async def client():
+            if mode == 'run':
+                res = await pair.c.run('cmd', input=want, **kw)
+                return res.exit_status, res.stdout, res.stderr
+            if mode == 'communicate':
+                proc = await pair.c.create_process('cmd', **kw)
+                out, err = await proc.communicate(want)
+                return proc.exit_status, out, err
+            proc = await pair.c.create_process('cmd', **kw)
+            proc.stdin.write(want)
+            proc.stdin.write_eof()
+            out, err = await asyncio.gather(proc.stdout.read(),
+                                            proc.stderr.read())
+            await proc.wait()
+            return proc.exit_status, out, err
+
+        status, out, err = run_hang(h, client(), chunker, 'duplex-' + mode)
+        h.pump(chunker)
+        labels.add('client-' + mode)
+
+        if case['size'] > case['swin']:
+            labels.add('input>window')
+
+        if status != 0:
+            raise Violation('exit', 'exit status %r, the command exits 0' %
+                            (status,), 'duplex:status')
+
+        if out != want:
+            raise Violation(
+                'result', '%s: exit status 0 reported with %d of %d units of '
+                'stdout (the echo of input sent while output was already '
+                'arriving); first difference at %d' %
+                (mode, len(out), len(want),
+                 next((i for i, (a, b) in enumerate(zip(out, want))
+                       if a != b), min(len(out), len(want)))),
+                'duplex:stdout-incomplete:' + mode)
+
+        if err != conv(enc, 'start\ndone\n'):
+            raise Violation('result', '%s: stderr %r' % (mode, err[:40]),
+                            'duplex:stderr:' + mode)
+
+        return finish_case(h, labels, NT_DUPLEX)
+    finally:
+        pair.close()
+
+
+def duplex_strategy(tier: str):
+    @st.composite
+    def build(draw):
+        swin = draw(pick([8, 64, 1024, 4096]))
+        # (an empty input= sends no EOF: the command would wait for good)
+        size = draw(pick([1, 2, swin, swin + 1, 3 * swin + 7, 20 * swin,
+                          100 * swin]))
+        size = min(size, 30000)
+        srv_read = draw(pick([1, 7, 64, 100000]))
+
+        if size > 3000:
+            srv_read = max(srv_read, 64)
+
+        return {'enc': draw(pick([None, None, 'utf-8'])),
+                'sapi': draw(pick(['session', 'process'])),
+                'client': draw(pick(['run', 'communicate', 'stream'])),
+                'swin': swin, 'spkt': draw(pick([8, 64, 32768])),
+                'win': draw(pick([8, 64, 4096, 2097152])),
+                'pkt': draw(pick([8, 64, 32768])), 'size': size,
+                'srv_read': srv_read,
+                'srv_drain': draw(st.booleans()),
+                'chunks': draw(st.one_of(
+                    st.just([]), st.just([]), st.just([4096]),
+                    st.lists(st.integers(50, 400), min_size=1,
                              max_size=4)))}
 
     return build()
@@ -2832,6 +2959,11 @@ FAMILIES = [
                              'closed-while-paused', 'finish-read',
                              'finish-peer-close', 'finish-cut',
                              'finish-abort', 'side-client', 'side-server']},
+           timeout_is_violation=True, case_timeout=120),
+    Family('duplex', run_duplex, strategy=duplex_strategy,
+           budget={'quick': 200, 'thorough': 4000},
+           required={'all': ['input>window', 'client-run',
+                             'client-communicate', 'client-stream']},
            timeout_is_violation=True, case_timeout=120),
     Family('writers', run_writers, strategy=writers_strategy,
            budget={'quick': 160, 'thorough': 3000},
